@@ -19,9 +19,9 @@ def fmt_op(o):
         return f"{k}(g{o['w']})"
     if k == "cv_wait":
         return f"cv_wait(cv{o['o']},m{o['v']},g{o['w']})"
-    if k in ("set_flag", "await_flag", "wake_only"):
+    if k in ("set_flag", "await_flag", "wake_only", "reg_flag"):
         return f"{k}(f{o['o']})"
-    if k in ("yield", "spin", "sleep", "park", "nop", "rand", "reset_steps", "scope_begin", "scope_end", "tid", "name", "me", "ayield", "bo_begin", "bo_end"):
+    if k in ("yield", "spin", "sleep", "park", "nop", "rand", "reset_steps", "scope_begin", "scope_end", "tid", "name", "me", "ayield", "suspend", "bo_begin", "bo_end"):
         return k
     return f"{k}(o{o['o']},v{o['v']},w{o['w']})"
 
@@ -87,6 +87,27 @@ def trace_signature(fam, diag):
     if ev["e"] == "end":
         return f"{fam}/trace/end:{ev['v']}/after:{prev}"
     return f"{fam}/trace/{ev['e']}/after:{prev}"
+
+
+# operations without any effect another task (or the caller) can observe: whether a task that is cut off at the end
+# of the execution had already performed them is not part of an outcome
+INVISIBLE_OPS = {"detach"}
+
+
+def canon_outcome(o, p):
+    try:
+        d = json.loads(o)
+        obs, unf = d["obs"], set(d.get("unf", []))
+    except Exception:
+        return o
+    for c in list(unf):
+        if c < len(obs) and c < len(p["tasks"]):
+            rest = p["tasks"][c][len(obs[c]):]
+            if rest and all(x["k"] in INVISIBLE_OPS for x in rest):
+                obs[c] = obs[c] + [0] * len(rest)
+                unf.discard(c)
+    d["unf"] = sorted(unf)
+    return json.dumps(d, sort_keys=True, separators=(",", ":"))
 
 
 def family_pipeline(fam, progs, outdir, cap=20000, do_mc=True, workers=8, max_diag=6, clock=False, sample=None, pb=None):
@@ -201,8 +222,9 @@ def family_pipeline(fam, progs, outdir, cap=20000, do_mc=True, workers=8, max_di
         n_spec = n_impl = miss_impl = miss_spec = 0
         idx_of = {p["id"]: i for i, p in enumerate(progs)}
         for pid, p in by_id.items():
-            so = set(spec_outs.get(pid, {}).keys())
-            io = impl_outs.get(pid, set())
+            spec_outs[pid] = {canon_outcome(o, p): w for o, w in spec_outs.get(pid, {}).items()}
+            so = set(spec_outs[pid].keys())
+            io = {canon_outcome(o, p) for o in impl_outs.get(pid, set())}
             n_spec += len(so)
             n_impl += len(io)
             extra = io - so
@@ -249,9 +271,12 @@ def F(fam, q, t, mc=True, sample=None, pb=None, clock=False):
     return {"fam": fam, "quick": q, "thorough": t, "mc": mc, "sample": sample, "pb": pb, "clock": clock}
 
 
-def K(fam, q, t, pb=None):
-    """all executions with the vector clock logged after every operation (Clocks.tla checks)"""
-    return F(fam, q, t, mc=False, pb=pb, clock=True)
+def K(fam, q, t, pb=None, pbq=2):
+    """executions (preemption-bounded by default, so that a capped exploration still varies the early choices) with the
+    vector clock logged after every operation (Clocks.tla checks)"""
+    d = F(fam, q, t, mc=False, pb=pb, clock=True)
+    d["pb_quick"] = pbq if pb is None else pb
+    return d
 
 
 def S(fam, q, t):
@@ -264,14 +289,15 @@ SHUTTLE_PROPS = {
                        K("mpsc", 12, 200), K("mpsc_drop", 8, 150), K("barrier", 8, 120), K("barrier_reuse", 6, 80),
                        K("once", 8, 120), K("statics", 6, 100), K("sem_fair", 8, 150), K("sem_unfair", 8, 150),
                        K("async_noabort", 8, 120), K("async", 8, 120), K("corpus_sync", 0, 0), K("corpus_mpsc", 0, 0),
-                       K("corpus_locks", 0, 0), K("corpus_sync_pb", 0, 0, pb=2)],
+                       K("corpus_locks", 0, 0), K("corpus_sync_pb", 0, 0, pb=2), K("corpus_sem", 0, 0)],
             "kinds": {"invariant-violated", "trace-rejected", "harness-crash", "tlc-error"},
             "assume": ["soundness against the edges the property lists; precision against the object-conservative relation (every operation on an object after every earlier one on it, plus tasks queued on it)",
                        "no edge is claimed for a lazy static that is already initialised, for park/unpark, or for failed try operations",
                        "target-clock replay (ReplayScheduler::set_target_clock) is not covered yet"]},
-    "C17": {"stages": [F("async", 30, 300), F("async_noabort", 24, 250), F("async_sem", 24, 250),
+    "C17": {"stages": [F("async", 30, 300), F("async_noabort", 24, 250), F("async_sem", 24, 250), F("corpus_sem", 0, 0),
+                       F("async_blk", 20, 200), F("async_wake", 16, 200), F("corpus_async", 0, 0),
                        {"fam": "async", "quick": 10, "thorough": 100, "mc": False, "sample": (40, 300), "pb": None}],
-            "assume": ["one awaiter per hand-written waker slot; aborted futures contain no blocking std calls",
+            "assume": ["one awaiter per hand-written waker slot; blocking std calls inside a poll are lock/unlock pairs and channel receives (no guard is held across an await)",
                        "block_on sections of threads use the same poll loop as spawned futures"]},
     "C07": {"stages": [F("ident", 24, 200, mc=False), F("tls", 30, 300, mc=False), F("scope", 24, 200, mc=False),
                        F("kernel", 14, 150)],
@@ -299,13 +325,14 @@ SHUTTLE_PROPS = {
                        F("condvar", 18, 200), F("park", 20, 150), F("barrier", 20, 150), F("barrier_reuse", 12, 100),
                        F("once", 16, 150), F("mpsc", 30, 300), F("mpsc_drop", 30, 300), F("sem_unfair", 20, 200),
                        F("sem_fair", 20, 200), F("async", 30, 300), F("async_noabort", 24, 250), F("async_sem", 24, 250),
-                       F("corpus_deadlock", 0, 0), F("corpus_locks", 0, 0),
+                       F("async_blk", 16, 150), F("corpus_async", 0, 0), F("corpus_sem", 0, 0), F("corpus_deadlock", 0, 0), F("corpus_locks", 0, 0),
                        F("corpus_sync", 0, 0), F("corpus_mpsc", 0, 0)],
             "kinds": {"outcome-missing-in-impl", "harness-crash", "tlc-error"},
             "assume": ["outcome = per-thread results + termination kind + unfinished set; spurious park wake-ups are not part of outcome sets",
                        "programs whose runtime tree exceeds the execution cap are compared in the impl-in-spec direction only"]},
     "C03": {"stages": [F("mutex", 14, 120), F("condvar", 14, 120), F("park", 20, 150), F("mpsc", 14, 120),
-                       F("async", 30, 300), F("async_noabort", 24, 250), F("corpus_deadlock", 0, 0)],
+                       F("async", 30, 300), F("async_noabort", 24, 250), F("async_blk", 16, 150), F("async_wake", 12, 150),
+                       F("corpus_async", 0, 0), F("corpus_deadlock", 0, 0)],
             "assume": ["termination oracle = derived Status (DESIGN 4.1); tasks<=3, ops<=3 (quick)"]},
     "C04": {"stages": [F("mutex", 20, 200), F("rwlock", 16, 150), F("atomic", 20, 200), F("corpus_locks", 0, 0)],
             "assume": ["8-bit atomics in the specification; all orderings treated as SeqCst (Shuttle's documented model)"]},
@@ -319,7 +346,7 @@ SHUTTLE_PROPS = {
     "C08": {"stages": [F("kernel", 14, 150), F("mutex", 14, 120), F("park", 20, 150)],
             "assume": ["observed through a recording Scheduler wrapper placed inside the runtime's MetricsScheduler"]},
     "C18": {"stages": [F("sem_unfair", 20, 200), F("sem_fair", 20, 200), F("sem_unfair_obs", 16, 150, mc=False),
-                       F("sem_fair_obs", 16, 150, mc=False), F("async_sem", 24, 250)],
+                       F("sem_fair_obs", 16, 150, mc=False), F("async_sem", 24, 250), F("corpus_sem", 0, 0)],
             "assume": ["blocking acquires from threads, awaited acquires from futures; cancellation = abort of a future pending in acquire"]},
 }
 
@@ -375,10 +402,28 @@ def sample_trace(outdir, maxlen=40):
 
 
 def match_known(pid, sig, known):
+    """exact signature, or (for entries written without a family) the signature with its family prefix removed"""
+    tail = sig.split("/", 1)[1] if "/" in sig else sig
     for k in known.get("open", []):
-        if k["property"] == pid and k["sig"] == sig:
+        if k["property"] != pid:
+            continue
+        if k["sig"].endswith("*") and (sig.startswith(k["sig"][:-1]) or tail.startswith(k["sig"][:-1])):
+            return k
+        if k["sig"] == sig or k["sig"] == tail:
             return k
     return None
+
+
+# invariants that state one property's claim are reported by that property's check only (the others still
+# validate the same traces against everything else)
+INV_OWNER = {"NoLostWake": {"C17"}, "StepBound": {"C13"}}
+
+
+def owned(pid, pr):
+    if pr["kind"] != "invariant-violated" or "/invariant/" not in pr["sig"]:
+        return True
+    name = pr["sig"].split("/invariant/")[1].split("/")[0]
+    return name not in INV_OWNER or pid in INV_OWNER[name]
 
 
 def run_c16(tier):
@@ -943,23 +988,32 @@ def run_property(pid, tier):
     problems = []
     samples = []
     fams = []
-    for st in spec["stages"]:
+    def run_stage(st):
         n = st[tier]
         progs = stage_programs(st["fam"], n)
         if not progs:
-            continue
+            return None
         smp = st["sample"][0 if tier == "quick" else 1] if st.get("sample") else None
-        pbv = st.get("pb")
+        pbv = st.get("pb_quick", st.get("pb")) if tier == "quick" else st.get("pb")
         pcap = cap if pbv is None else (25000 if tier == "quick" else 400000)
         if st.get("clock"):
-            pcap = 600 if tier == "quick" else 100000
-        r = cached_pipeline(st["fam"], progs, tier, pcap, st["mc"], sample=smp, pb=pbv, clock=bool(st.get("clock")))
+            pcap = 1500 if tier == "quick" else 100000
+        return progs, cached_pipeline(st["fam"], progs, tier, pcap, st["mc"], sample=smp, pb=pbv, clock=bool(st.get("clock")))
+
+    # stages are independent (own output directory each): run a few side by side, report in table order
+    from concurrent.futures import ThreadPoolExecutor
+    with ThreadPoolExecutor(max_workers=int(os.environ.get("VERIF_STAGE_JOBS", "3"))) as ex:
+        results = list(ex.map(run_stage, spec["stages"]))
+    for st, res in zip(spec["stages"], results):
+        if res is None:
+            continue
+        progs, r = res
         fams.append(r["summary"])
         for k, v in r["summary"].items():
             if isinstance(v, (int, float)) and k not in ("wall",) and not k.startswith("t_"):
                 totals[k] = totals.get(k, 0) + v
         for pr in r["problems"]:
-            if pr["kind"] in spec.get("kinds", OWN_KINDS):
+            if pr["kind"] in spec.get("kinds", OWN_KINDS) and owned(pid, pr):
                 problems.append(pr)
         if r.get("sample"):
             samples.append({"family": st["fam"], "program": progs[-1], "trace": r["sample"]})
